@@ -16,7 +16,7 @@ ASSUMPTIONS = [
 ]
 CASES = {"quick": 480, "thorough": 20000}
 MIN_CASES = {"quick": 60, "thorough": 1500}
-REQUIRED_COUNTERS = ["trials_judged_by_contract", "layouts_judged", "movable_discs_checked", "fixed_modules_checked", "fixed_terminals_checked", "hard_modules_checked", "layouts_after_earlier_queries"]
+REQUIRED_COUNTERS = ["trials_judged_by_contract", "layouts_judged", "movable_discs_checked", "fixed_modules_checked", "fixed_terminals_checked", "hard_modules_checked", "layouts_after_earlier_queries", "nets_compared_with_document"]
 REQUIRED_CLASSES = ["fixed0", "fixed1"]
 SOFT_DEADLINE = {"quick": 200, "thorough": 3300}
 
@@ -141,6 +141,14 @@ def check(case, ctx):
         ctx.violation("load_raised", f"Spectral(netlist) raised {type(sp).__name__}: {str(sp)[:200]} :: {case['netlist']}")
         return
     before = nu.summary(sp)
+    want_nets = []
+    for e in case["netlist"]["Nets"]:
+        e = list(e)
+        w = float(e.pop()) if not isinstance(e[-1], str) else 1.0
+        want_nets.append({"members": e, "weight": w})
+    ctx.count("nets_compared_with_document")
+    if before["nets"] != want_nets:
+        ctx.violation("nets_changed", f"building the spectral netlist changed the nets: document {want_nets}, object {before['nets']}")
     pre = {}
     for m in sp.modules:
         if m.is_hard and m.num_rectangles > 0:
@@ -178,8 +186,8 @@ def check(case, ctx):
     for b, a in zip(before["modules"], after["modules"]):
         if b["name"] != a["name"] or b["kind"] != a["kind"] or b["area_regions"] != a["area_regions"] or b["area"] != a["area"] or b["aspect_ratio"] != a["aspect_ratio"]:
             ctx.violation("module_changed", f"module {b['name']}: kind/area changed: {b} -> {a}")
-    if before["nets"] != after["nets"] or len(before["modules"]) != len(after["modules"]):
-        ctx.violation("nets_changed", "nets or module list changed")
+    if want_nets != after["nets"] or len(before["modules"]) != len(after["modules"]):
+        ctx.violation("nets_changed", f"nets or module list changed: document {want_nets}, after placement {after['nets']}")
     sx, sy = 1e-9 * W, 1e-9 * H
     for m, b in zip(sp.modules, before["modules"]):
         rad = math.sqrt(m.area() / math.pi)
